@@ -20,6 +20,9 @@ CHECKS = {
  "C07": ("other", "Provenance rules on every path: each word error is reported at self.tracker.current_word_mem_pos() and quotes the checked word slice, shown by a parameter-flow fixpoint from CdpRunningValidator::check through all helper methods and closures (no other slice can reach report_error); the word counter is bumped exactly once per word and dominates every report; the offset formula's normal form is (count-1)*(10+pad)+rdh_pos+64 with pad = 6 iff data_format == 0; every formatted Error message starts with an upper-hex offset whose source is a word position, the packet's own offset parameter or the frame start; packet/offset association through CdpArray (push, both iterators) and LinkValidator::do_checks; the dump prints bytes 0..9 in order. The two scanner messages E100/E101 violate the rule and are recorded known findings (F9).",
          "Trusted: rustc nightly front end, /verif/driver, fpv provenance (single-definition MIR temporaries, reaching definitions for user variables), source text only for recovering format-string literals at resolved macro call sites.",
          "MIR provenance / parameter-flow fixpoint / dominance; THIR normal form of the offset formula", "DESIGN.md §3 C07"),
+ "C08": ("proof", "Header codec bijection as proof obligations, all discharged on every run: RdhCru and all nested structs are repr(packed) with contiguous fields summing to 64 bytes (23 integer leaves), every leaf is decoded by a little-endian read of exactly its layout byte range with no masking (symbolic evaluation of from_buf over the 512 wire bits), to_byte_slice exposes (address of the value, size_of::<T>()) and is never resolved on a reference type, all ByteSlice implementors are padding-free: hence to_bytes(from_buf(b)) = b for all 2^512 headers on a little-endian target. Additional structural rules in the same evidence: payload Vec<u8> is never mutably borrowed between load_payload_raw and the writer; the writer pushes header/payload pairwise, flushes header-then-payload in insertion order with one write_all, clears after the write, flushes on drop; the skip_payload and writer-selection decision tables; the filter predicate normal form.",
+         "Trusted: rustc nightly front end (layouts), /verif/driver, fpv.thir evaluator, oracles/rdh_layout.json. Assumes target_endian=little (read from the session). Not decided: OS write semantics, stdout vs file differences.",
+         "layout/packing facts from the compiler + symbolic decode-table equality (proof obligations) + MIR ordering/borrow rules", "DESIGN.md §3 C08"),
 }
 
 NOT_APPLICABLE = {
